@@ -115,10 +115,12 @@ def run(command, timeout=30, withexitstatus=False, events=None,
             index = child.expect(patterns)
             if isinstance(child.after, child.allowed_string_types):
                 child_result_list.append(child.before + child.after)
-            else:
-                # child.after may have been a TIMEOUT or EOF,
+            elif child.after is not TIMEOUT:
+                # child.after may have been an EOF,
                 # which we don't want appended to the list.
                 child_result_list.append(child.before)
+            # A TIMEOUT event consumes nothing: the pending text is returned
+            # with a later event, or below if the run stops here.
             if isinstance(responses[index], child.allowed_string_types):
                 child.send(responses[index])
             elif (isinstance(responses[index], types.FunctionType) or
@@ -128,6 +130,8 @@ def run(command, timeout=30, withexitstatus=False, events=None,
                 if isinstance(callback_result, child.allowed_string_types):
                     child.send(callback_result)
                 elif callback_result:
+                    if child.after is TIMEOUT:
+                        child_result_list.append(child.before)
                     break
             else:
                 raise TypeError("parameter `event' at index {index} must be "
